@@ -31,6 +31,14 @@ func bU32(x uint32) []byte { return []byte{byte(x), byte(x >> 8), byte(x >> 16),
 type bConn struct {
 	id                       uint32
 	topic, typ, md5, def, cid []byte
+	dtopic                    []byte // the "topic" field of the connection data (the publisher's original topic); nil: same as topic
+}
+
+func (c *bConn) dataTopic() []byte {
+	if c.dtopic != nil {
+		return c.dtopic
+	}
+	return c.topic
 }
 type bMsg struct {
 	conn        uint32
@@ -43,7 +51,7 @@ func bConnRecord(dst *bBuf, c *bConn) {
 	h.field("op", []byte{OpBagConnection})
 	h.field("conn", bU32(c.id))
 	h.field("topic", c.topic)
-	d.field("topic", c.topic)
+	d.field("topic", c.dataTopic())
 	d.field("type", c.typ)
 	d.field("md5sum", c.md5)
 	d.field("message_definition", c.def)
@@ -115,6 +123,8 @@ func VC18Bag() {
 		c := &bConn{id: vSymU32(tag + "_id"), topic: vSymBytes(tag+"_topic", ln, ln), typ: vSymBytes(tag+"_type", ln, ln), md5: vSymBytes(tag+"_md5", 1, 1), def: vSymBytes(tag+"_def", ln+1, ln+1)}
 		if cid {
 			c.cid = vSymBytes(tag+"_cid", 1, 1)
+			// a remapped connection: the topic in the connection data differs from the topic the messages are stored on
+			c.dtopic = vSymBytes(tag+"_dtopic", ln+1, ln+1)
 		}
 		return c
 	}
@@ -214,54 +224,69 @@ func VC18Bag() {
 		vAssert(uint32(messages[i].ChannelID) == e.conn, "message on the channel of its connection")
 		vAssert(len(messages[i].Data) == len(e.data) && vBytesEq(messages[i].Data, e.data), "same message bytes")
 	}
-	// channels: one record per connection record, carrying topic and header fields minus type/definition
-	nConnRecs := 0
+	// channels: every channel record of the output describes one of the connections (topic and header fields minus
+	// type/definition, schema with its type and definition); every connection has at least one channel record and at
+	// most one per connection record (the property does not say whether a repeated connection record is repeated
+	// in the output, so both are accepted)
+	nConnRecs := make([]int, len(conns))
 	for _, o := range order {
 		if o >= 0 {
-			c := conns[o]
-			vAssert(nConnRecs < len(channels), "a channel per connection record")
-			if nConnRecs < len(channels) {
-				ch := channels[nConnRecs]
-				vAssert(uint32(ch.ID) == c.id, "channel id is the connection id")
-				vAssert(vStrEq(ch.Topic, string(c.topic)), "channel topic is the connection topic")
-				vAssert(vStrEq(ch.MessageEncoding, "ros1"), "channel message encoding ros1")
-				vAssert(vStrEq(ch.Metadata["md5sum"], string(c.md5)) && vStrEq(ch.Metadata["topic"], string(c.topic)), "channel metadata carries the connection header fields")
-				_, hasType := ch.Metadata["type"]
-				_, hasDef := ch.Metadata["message_definition"]
-				vAssert(!hasType && !hasDef, "type and definition are not channel metadata")
-				if c.cid != nil {
-					vAssert(vStrEq(ch.Metadata["callerid"], string(c.cid)), "callerid preserved")
-				}
-				// its schema carries type and definition
-				var sc *mcap.Schema
-				for _, s := range schemas {
-					if s.ID == ch.SchemaID {
-						sc = s
-					}
-				}
-				vAssert(sc != nil, "channel refers to a written schema")
-				if sc != nil {
-					vAssert(vStrEq(sc.Name, string(c.typ)) && vStrEq(sc.Encoding, "ros1msg"), "schema carries the connection's type")
-					// a schema is shared by connections with the same type/md5 (whose definitions are the same in a valid
-					// bag): the definition is asserted against the first connection that introduced the type/md5
-					firstOfKind := true
-					for _, prev := range conns {
-						if prev == c {
-							break
-						}
-						if vFork(vAnd(vBytesEq(prev.typ, c.typ), vBytesEq(prev.md5, c.md5))) {
-							firstOfKind = false
-						}
-					}
-					if firstOfKind {
-						vAssert(vBytesEq(sc.Data, c.def), "schema carries the connection's definition")
-					}
-				}
-			}
-			nConnRecs++
+			nConnRecs[o]++
 		}
 	}
-	vAssert(nConnRecs == len(channels), "no extra channel")
+	nChan := make([]int, len(conns))
+	for _, ch := range channels {
+		ci := -1
+		for j := range conns {
+			if ci < 0 && vFork(uint32(ch.ID) == conns[j].id) {
+				ci = j
+			}
+		}
+		vAssert(ci >= 0, "channel id is the connection id")
+		if ci < 0 {
+			continue
+		}
+		c := conns[ci]
+		nChan[ci]++
+		vAssert(vStrEq(ch.Topic, string(c.topic)), "channel topic is the connection topic")
+		vAssert(vStrEq(ch.MessageEncoding, "ros1"), "channel message encoding ros1")
+		vAssert(vStrEq(ch.Metadata["md5sum"], string(c.md5)) && vStrEq(ch.Metadata["topic"], string(c.dataTopic())), "channel metadata carries the connection header fields")
+		_, hasType := ch.Metadata["type"]
+		_, hasDef := ch.Metadata["message_definition"]
+		vAssert(!hasType && !hasDef, "type and definition are not channel metadata")
+		if c.cid != nil {
+			vAssert(vStrEq(ch.Metadata["callerid"], string(c.cid)), "callerid preserved")
+		}
+		// its schema carries type and definition
+		var sc *mcap.Schema
+		for _, s := range schemas {
+			if s.ID == ch.SchemaID {
+				sc = s
+			}
+		}
+		vAssert(sc != nil, "channel refers to a written schema")
+		if sc != nil {
+			vAssert(vStrEq(sc.Name, string(c.typ)) && vStrEq(sc.Encoding, "ros1msg"), "schema carries the connection's type")
+			// a schema is shared by connections with the same type/md5 (whose definitions are the same in a valid
+			// bag): the definition is asserted against the first connection that introduced the type/md5
+			firstOfKind := true
+			for _, prev := range conns {
+				if prev == c {
+					break
+				}
+				if vFork(vAnd(vBytesEq(prev.typ, c.typ), vBytesEq(prev.md5, c.md5))) {
+					firstOfKind = false
+				}
+			}
+			if firstOfKind {
+				vAssert(vBytesEq(sc.Data, c.def), "schema carries the connection's definition")
+			}
+		}
+	}
+	for j := range conns {
+		vAssert(nChan[j] >= 1, "a channel for every connection")
+		vAssert(nChan[j] <= nConnRecs[j], "no more channel records than connection records")
+	}
 	// one schema per distinct type/md5
 	if len(conns) == 2 {
 		same := vAnd(vBytesEq(conns[0].typ, conns[1].typ), vBytesEq(conns[0].md5, conns[1].md5))
